@@ -18,6 +18,8 @@
 //	who = "engine": ExecutionEngine.Execute against a recording subgraph; acc <=> no error and the subgraph was called
 //	who = "val":    VariablesValidator.ValidateWithRemap after the engine's normalization steps
 //	who = "valq":   the same with DisableExposingVariablesContent
+//	who = "vall" / "vallq": the same two, but ONE long-lived validator instance each for the whole sequence of cases
+//	                (seed-shuffled order): the verdict for a request must not depend on earlier requests
 //
 // q = the quoted tokens of the rejection message (".[" canonicalised to "["), leak = number of sentinel
 // leaves of the variables that occur in the message.
@@ -31,10 +33,12 @@ import (
 	"flag"
 	"fmt"
 	"io"
+	"math/rand"
 	"net/http"
 	"os"
 	"runtime/debug"
 	"sort"
+	"strconv"
 	"strings"
 	"sync"
 
@@ -139,6 +143,7 @@ type Obs struct {
 	Sent  string `json:"sent"`
 	Resp  string `json:"resp"`
 	Stage string `json:"stage"`
+	Pos   int    `json:"pos"` // long-lived validators: position of the case in their sequence
 }
 
 // ------------------------------------------------------------------ SDL
@@ -499,15 +504,23 @@ func observeEngine(eng *engine.ExecutionEngine, rec *recorder, id string, body [
 	return true, "", sent, resp, stage
 }
 
-// observeValidator: the validator called directly after the engine's normalization steps (execution_engine.go Execute).
-func observeValidator(schema *graphql.Schema, body []byte, disableContent bool) (acc bool, msg, stage string) {
-	var req graphql.Request
-	if err := graphql.UnmarshalRequest(bytes.NewReader(body), &req); err != nil {
-		return false, "unmarshal: " + err.Error(), "unmarshal"
+// prepared is a request after the engine's normalization steps (execution_engine.go Execute), ready for the validator.
+type prepared struct {
+	req   graphql.Request
+	vars  []byte
+	remap map[string]string
+}
+
+// prepare runs the engine's steps in front of variable validation: normalize, ValidateForSchema, normalize
+// with variable extraction, VariablesMapper.
+func prepare(schema *graphql.Schema, body []byte) (p *prepared, stage string, err error) {
+	p = &prepared{}
+	if err := graphql.UnmarshalRequest(bytes.NewReader(body), &p.req); err != nil {
+		return nil, "unmarshal", fmt.Errorf("unmarshal: %w", err)
 	}
+	req := &p.req
 	stage = "normalize1"
-	var verr error
-	err := safely(&stage, func() error {
+	err = safely(&stage, func() error {
 		result, err := req.Normalize(schema,
 			astnormalization.WithRemoveFragmentDefinitions(),
 			astnormalization.WithRemoveUnusedVariables(),
@@ -539,26 +552,45 @@ func observeValidator(schema *graphql.Schema, body []byte, disableContent bool) 
 		}
 		stage = "remap"
 		var remapReport operationreport.Report
-		remap := astnormalization.NewVariablesMapper().NormalizeOperation(req.Document(), schema.Document(), &remapReport)
+		p.remap = astnormalization.NewVariablesMapper().NormalizeOperation(req.Document(), schema.Document(), &remapReport)
 		if remapReport.HasErrors() {
 			return remapReport
 		}
-		stage = "variables"
-		vars := []byte(req.Variables)
-		if len(bytes.TrimSpace(vars)) == 0 || bytes.Equal(bytes.TrimSpace(vars), []byte("null")) {
+		p.vars = []byte(req.Variables)
+		if len(bytes.TrimSpace(p.vars)) == 0 || bytes.Equal(bytes.TrimSpace(p.vars), []byte("null")) {
 			// a request without variables has the empty variables object
-			vars = []byte("{}")
+			p.vars = []byte("{}")
 		}
-		validator := variablesvalidation.NewVariablesValidator(variablesvalidation.VariablesValidatorOptions{
-			DisableExposingVariablesContent: disableContent,
-		})
-		verr = validator.ValidateWithRemap(req.Document(), schema.Document(), vars, remap)
-		return verr
+		return nil
+	})
+	if err != nil {
+		return nil, stage, err
+	}
+	return p, "variables", nil
+}
+
+// validateWith calls the given validator instance on a prepared request.
+func validateWith(validator *variablesvalidation.VariablesValidator, schema *graphql.Schema, p *prepared) (acc bool, msg, stage string) {
+	stage = "variables"
+	err := safely(&stage, func() error {
+		return validator.ValidateWithRemap(p.req.Document(), schema.Document(), p.vars, p.remap)
 	})
 	if err != nil {
 		return false, err.Error(), stage
 	}
 	return true, "", stage
+}
+
+// observeValidator: a fresh validator called directly after the engine's normalization steps.
+func observeValidator(schema *graphql.Schema, body []byte, disableContent bool) (acc bool, msg, stage string) {
+	p, stage, err := prepare(schema, body)
+	if err != nil {
+		return false, err.Error(), stage
+	}
+	validator := variablesvalidation.NewVariablesValidator(variablesvalidation.VariablesValidatorOptions{
+		DisableExposingVariablesContent: disableContent,
+	})
+	return validateWith(validator, schema, p)
 }
 
 func main() {
@@ -661,6 +693,40 @@ func main() {
 	}
 	close(ch)
 	wg.Wait()
+	// Long-lived validators: ONE instance (per exposure option) validates the whole sequence of cases in a
+	// seed-shuffled order, as a server does that keeps its validator. The verdict for a request must not depend
+	// on the requests before it, so these observations are judged exactly like those of a fresh validator.
+	{
+		seed, _ := strconv.ParseInt(os.Getenv("VERIF_SEED"), 10, 64)
+		order := rand.New(rand.NewSource(seed)).Perm(len(jobs))
+		schema, err := graphql.NewSchemaFromString(schemaSDL)
+		if err != nil {
+			fmt.Fprintln(os.Stderr, "schema:", err)
+			os.Exit(2)
+		}
+		long := variablesvalidation.NewVariablesValidator(variablesvalidation.VariablesValidatorOptions{})
+		longQuiet := variablesvalidation.NewVariablesValidator(variablesvalidation.VariablesValidatorOptions{DisableExposingVariablesContent: true})
+		for pos, idx := range order {
+			j := jobs[idx]
+			body, query, variables, sentinels := buildRequest(hdr, j.c)
+			mk := func(who string, acc bool, expose bool, msg, stage string) Obs {
+				q := quoted(msg)
+				if acc {
+					q = []string{}
+				}
+				return Obs{ID: j.id, Case: j.rawc, Who: who, Acc: acc, Expose: expose, NQ: len(q), Q: q,
+					Leak: leaks(msg, sentinels), Msg: msg, Query: query, Vars: variables, Stage: stage, Pos: pos}
+			}
+			p, stage, err := prepare(schema, body)
+			if err != nil {
+				results[idx] = append(results[idx], mk("vall", false, true, err.Error(), stage), mk("vallq", false, false, err.Error(), stage))
+				continue
+			}
+			acc, msg, stage := validateWith(long, schema, p)
+			accq, msgq, stageq := validateWith(longQuiet, schema, p)
+			results[idx] = append(results[idx], mk("vall", acc, true, msg, stage), mk("vallq", accq, false, msgq, stageq))
+		}
+	}
 	of, err := os.Create(*out)
 	if err != nil {
 		fmt.Fprintln(os.Stderr, err)
